@@ -126,3 +126,62 @@ package jrpc2
 //@ func (*Client).CallResult
 //@   modifies clientCalls, *result
 //@   ensures clientCalls == old(clientCalls) + 1
+
+// ---------------------------------------------------------------------------
+// Method dispatch (C17)
+// ---------------------------------------------------------------------------
+
+// An Assigner is pure in its arguments for the duration of a call (DESIGN 6.3):
+// assignerResult(a, method) is what a.Assign(ctx, method) returns.
+// assignCalls counts, per thread, the Assign invocations.
+//@ spec assignerResult(Iface, Str) Int
+//@ tlghost assignCalls Int
+//@ iface Assigner.Assign
+//@   modifies assignCalls
+//@   ensures result == assignerResult(self, arg1) && assignCalls == old(assignCalls) + 1
+
+//@ role field Server.newctx
+//@   ensures result != nil
+
+//@ func (*ServerOptions).allowBuiltin
+//@   nilrecv
+//@   ensures[C17:default] s == nil ==> result
+//@   ensures[C17:option] s != nil ==> result == !s.DisableBuiltin
+
+// rpcPrefix(name): name begins with the four bytes "rpc."
+//@ pure rpcPrefix(name Str) Bool = len(name) >= 4 && name[0] == 'r' && name[1] == 'p' && name[2] == 'c' && name[3] == '.'
+
+// With built-ins enabled every name beginning with "rpc." is withheld from the
+// assigner: rpc.serverInfo is answered by the built-in handler, every other
+// such name has no handler. All other names (and, with built-ins disabled, all
+// names) go to the assigner unchanged.
+//@ func (*Server).assignLocked
+//@   requires s.mux != nil
+//@   modifies assignCalls
+//@   ensures[C17:reserved] s.builtin && rpcPrefix(name) && name != "rpc.serverInfo" ==> result == nil
+//@   ensures[C17:serverinfo] s.builtin && name == "rpc.serverInfo" ==> result != nil
+//@   ensures[C17:withheld] s.builtin && rpcPrefix(name) ==> assignCalls == old(assignCalls)
+//@   ensures[C17:passthrough] !(s.builtin && rpcPrefix(name)) ==> result == assignerResult(s.mux, name) && assignCalls == old(assignCalls) + 1
+
+// The context handed to assigner and handler carries the inbound request.
+// The key types are private to this package: only this package stores values
+// under them, and every such store is obliged (requires on context.WithValue
+// in /verif/spec/deps/context.gvc) to store a value of the matching type.
+//@ func InboundRequest
+//@   requires ctx != nil && (ctxValue(ctx, boxof(0, "jrpc2.inboundRequestKey")) == nil || typeis(ctxValue(ctx, boxof(0, "jrpc2.inboundRequestKey")), "*jrpc2.Request"))
+//@   ensures[C17:inbound] ctxValue(ctx, boxof(0, "jrpc2.inboundRequestKey")) == nil ==> result == nil
+//@   ensures[C17:inbound] ctxValue(ctx, boxof(0, "jrpc2.inboundRequestKey")) != nil ==> result == unboxas(ctxValue(ctx, boxof(0, "jrpc2.inboundRequestKey")), "*jrpc2.Request")
+
+// setContext attaches to t a context that carries the inbound request, and for
+// a request with an id reserves that id under the cancel function of t's context.
+//@ func (*Server).setContext
+//@   requires held(s.mu) && t != nil && s.newctx != nil && s.used != nil
+//@   modifies t.ctx, map(s.used)
+//@   ensures[C17:inbound-in-ctx] t.ctx != nil && ctxValue(t.ctx, boxof(0, "jrpc2.inboundRequestKey")) == boxof(t.hreq, "*jrpc2.Request")
+//@   ensures[C07:reserved] id != "" ==> in(s.used, id) && lookup(s.used, id) == cancelOf(t.ctx) && lookup(s.used, id) != nil && !fired(lookup(s.used, id))
+//@   ensures[C07:others-kept] forall(k string, k != id ==> in(s.used, k) == old(in(s.used, k)) && lookup(s.used, k) == old(lookup(s.used, k)))
+//@   ensures[C07:no-id-no-reservation] id == "" ==> in(s.used, id) == old(in(s.used, id)) && lookup(s.used, id) == old(lookup(s.used, id))
+
+//@ func ServerFromContext
+//@   requires ctx != nil && typeis(ctxValue(ctx, boxof(0, "jrpc2.serverKey")), "*jrpc2.Server")
+//@   ensures[C17:server] result == unboxas(ctxValue(ctx, boxof(0, "jrpc2.serverKey")), "*jrpc2.Server")
